@@ -44,7 +44,8 @@ type blk struct {
 	trueFid int
 	elems   [][]byte // everything the true filter commits to
 	omitScr []byte   // an output script of a non-coinbase tx
-	txOuts  [][][]byte // ordinary (non-OP_RETURN) output scripts of each non-coinbase tx
+	txOuts  [][][]byte // output scripts of each non-coinbase tx that BIP158 commits to (all but those starting with OP_RETURN)
+	unpars  [][]byte   // those of them that do not parse as scripts
 	opret   []byte   // an OP_RETURN script of a non-coinbase tx (or nil)
 	vars    map[string]int
 }
@@ -123,7 +124,7 @@ func newWorld(t *tr.W, r *rand.Rand, cps map[uint32]*chainhash.Hash) *world {
 			}
 			for ht, c := range w.chain {
 				if c == b && w.gbFail[ht] {
-					return nil, errors.New("getblock: injected failure")
+					return nil, errInjectedGetBlock
 				}
 			}
 			return btcutil.NewBlock(b.msg), nil
@@ -334,6 +335,23 @@ func (w *world) newBlock(prev *blk) *blk {
 			outs = append(outs, s)
 			tx.AddTxOut(wire.NewTxOut(int64(1000+j), s))
 		}
+		if w.r.Intn(3) == 0 {
+			// an output whose script does not parse (truncated push / missing
+			// length byte): BIP158 commits to it like to any other script
+			var s []byte
+			switch w.r.Intn(3) {
+			case 0:
+				s = append([]byte{0x4b}, w.randScript(0)[:12]...) // push 75 bytes, 12 present
+			case 1:
+				s = append(w.randScript(1), 0x4c) // ... OP_PUSHDATA1 without its length
+			default:
+				s = append([]byte{0x4d, 0xff}, w.randScript(0)[:5]...) // OP_PUSHDATA2, half a length
+			}
+			b.unpars = append(b.unpars, s)
+			outs = append(outs, s)
+			tx.AddTxOut(wire.NewTxOut(546, s))
+			w.t.Hit("block.unparsable-output")
+		}
 		b.txOuts = append(b.txOuts, outs)
 		if w.r.Intn(3) == 0 {
 			s := w.randScript(2)
@@ -414,6 +432,12 @@ func (w *world) variant(b *blk, kind string) int {
 		if el == nil {
 			return w.variant(b, "omit-all")
 		}
+	case "omit-unparsable":
+		// exactly the output scripts that do not parse
+		if len(b.unpars) == 0 {
+			return w.variant(b, "omit-some")
+		}
+		without(b.unpars)
 	case "omit-all":
 		// every output of one transaction
 		without(b.txOuts[0])
@@ -576,36 +600,24 @@ func (w *world) dump() string {
 	return sb.String()
 }
 
+// errInjectedGetBlock is the error our GetBlock stand-in returns when the case
+// says the block cannot be fetched; the code under test hands it back unwrapped.
+var errInjectedGetBlock = errors.New("injected: block not available")
+
+// errKind classifies the outcome of a call WITHOUT reading message texts of the
+// code under test: no error, our own injected GetBlock failure (by identity), a
+// panic caught by our own hook (its marker), or simply "an error".  Which error
+// it was shows in what the call did to the stores and the ban list.
 func errKind(err error) string {
-	if err == nil {
-		return "nil"
-	}
-	s := err.Error()
 	switch {
-	case strings.HasPrefix(s, "PANIC"):
+	case err == nil:
+		return "nil"
+	case strings.HasPrefix(err.Error(), "PANIC: "): // marker written by export_verif_cf.go
 		return "PANIC"
-	case strings.Contains(s, "reorg in progress"):
-		return "err reorg"
-	case strings.Contains(s, "couldn't get cfheaders from peers"):
-		return "err nopeers"
-	case strings.Contains(s, "all peers served bogus headers"):
-		return "err allbad"
-	case strings.Contains(s, "peers serving consistent"):
-		return "err nomajority"
-	case strings.Contains(s, "getblock"):
+	case errors.Is(err, errInjectedGetBlock):
 		return "err getblock"
-	case strings.Contains(s, "out of order"):
-		return "err prev"
-	case strings.Contains(s, "no peer is serving good cfheader checkpoints"):
-		return "err nocp"
-	case strings.Contains(s, "no peer is serving good cfheaders"):
-		return "err nolong"
-	case strings.Contains(s, "expected to be the same"):
-		return "err baseline"
-	case strings.Contains(s, "got mismatched checkpoints"):
-		return "err mismatched"
 	}
-	return "err other"
+	return "err"
 }
 
 // guard runs f with a watchdog.
